@@ -7,7 +7,7 @@ for d in sorted(glob.glob('/verif/seeded/*')):
     first=desc[:230]+('...' if len(desc)>230 else '')
     missed='MISSED' in m['caught_by'] or 'Initially only' in m['caught_by']
     rows.append((os.path.basename(d), m['property'], first.replace('|','/'), m['caught_by'].replace('|','/'), 'initially missed' if missed else 'caught'))
-txt="## 7. Which checks catch which seeded changes\n\nIndependently written changes (sub-agents that saw only the property text and a scratch worktree; each keeps the 126 tests green\nand comes with a failing demonstration; all confirmed with tools/seed_eval.sh by applying the patch to /repo, running the\nchecks and undoing it).  `seeded/<id>/` holds patch.diff, demo.py, meta.json.\n\n| seed | change (abridged) | caught by | first run |\n|---|---|---|---|\n"
+txt="## 7. Which checks catch which seeded changes\n\nIndependently written changes (sub-agents that saw only the property text and a scratch worktree; each keeps the 126 tests green\nand comes with a failing demonstration; all confirmed with tools/seed_eval.sh by applying the patch to /repo, running the\nchecks and undoing it).  `seeded/<id>/` holds patch.diff, demo.py, meta.json.  A patch applies to the /repo tree at the time of its evaluation; later `fix:` commits have touched some of the same lines (patches that had to be re-based say so).\n\n| seed | change (abridged) | caught by | first run |\n|---|---|---|---|\n"
 for r in rows:
     txt+="| %s | %s | %s | %s |\n" % (r[0], r[2], r[3], r[4])
 n=len(rows); miss=sum(1 for r in rows if r[4]!='caught')
